@@ -153,6 +153,8 @@ theorem while1_spec (f file : Bytes) (sched : Nat → Nat) (idx : Idx) (stop : N
       simp [Gen.SrcIdxFa.readIntoBuffer_while1, slice_self]
     · have hb : 0 < stop - cur := by omega
       have hpos' : decide (stop - cur > 0) = true := by simpa using hb
+      have hpos'' : (stop - cur != 0) = true := by simp; omega
+      have hpos''' : decide (0 < stop - cur) = true := by simpa using hb
       by_cases hne : s.rest = []
       · -- end of file
         have hpost := readLine_eof sched idx s lo (stop - cur) seq hne inv.avail_le
@@ -166,7 +168,7 @@ theorem while1_spec (f file : Bytes) (sched : Nat → Nat) (idx : Idx) (stop : N
           refine ⟨fun hall => ?_, fun _ _ => ⟨s', buf', ?_⟩⟩
           · have := hall cur (Nat.le_refl _) (by omega); omega
           · rw [Gen.SrcIdxFa.readIntoBuffer_while1]
-            simp only [hpos', if_true, hres, Res.ok_bind, Res.pure_eq_ok, bind_pure_comp, pure_bind]
+            simp only [hpos', hpos'', hpos''', if_true, hres, Res.ok_bind, Res.pure_eq_ok, bind_pure_comp, pure_bind]
       · have hpost := readLine_step f sched idx s lo cur line (stop - cur) seq hlb hlB hs h64 inv hb hne
         generalize hres : Gen.SrcIdxFa.readLine (fillBufOp sched) consumeOp s (toRec idx) lo (stop - cur) seq = res at hpost
         cases hpost with
@@ -182,7 +184,7 @@ theorem while1_spec (f file : Bytes) (sched : Nat → Nat) (idx : Idx) (stop : N
               Gen.SrcIdxFa.readIntoBuffer_while1 (fillBufOp sched) consumeOp (seekOp file) (toRec idx) gas
                 (IdxFa.consume (IdxFa.fillBuf sched s) tr) (seq ++ kept) (stop - (cur + n)) lo' := by
             rw [Gen.SrcIdxFa.readIntoBuffer_while1]
-            simp only [hpos', if_true, hres, Res.ok_bind, Res.pure_eq_ok, hsub, pure_bind]
+            simp only [hpos', hpos'', hpos''', if_true, hres, Res.ok_bind, Res.pure_eq_ok, hsub, pure_bind]
           have hposj : ∀ j, j < n → pos idx (cur + j) = idx.off + line * idx.lB + lo + j := by
             intro j hj
             have hlo : lo < idx.lb := by
@@ -383,40 +385,66 @@ theorem fill_while_spec (f : Bytes) (sched : Nat → Nat) (idx : Idx) (cap bi bt
           rw [Nat.add_zero] at this
           omega
 
+/-- what `fill_buffer` delivers (see `fillBuffer_spec`) -/
+abbrev FillPost (f : Bytes) (sched : Nat → Nat) (idx : Idx) (cap bi bl cur : Nat) (buf : Bytes) (fuel : Nat) (s : St)
+    (lo : Nat) : Prop :=
+  (pos idx cur < f.length →
+    ∃ s' lo' n line', 0 < n ∧ n ≤ bl ∧
+      Gen.SrcIdxFa.fillBuffer (fillBufOp sched) consumeOp cap s (toRec idx) bl lo buf bi fuel =
+        Res.ok (.ok (), s', bl - n, lo', slice f idx cur (cur + n), 0) ∧
+      Inv f idx s' lo' (cur + n) line' ∧ s'.rest.length ≤ s.rest.length ∧
+      (∀ j, j < n → pos idx (cur + j) < f.length)) ∧
+  (f.length ≤ pos idx cur →
+    ∃ s' bl' lo' buf' bi', Gen.SrcIdxFa.fillBuffer (fillBufOp sched) consumeOp cap s (toRec idx) bl lo buf bi fuel =
+        Res.ok (.error eofErr, s', bl', lo', buf', bi'))
+
+/-- `fill_buffer` = clear the buffer, run the refill loop with *some* positive request `btr ≤ bases_left`, reset `buf_idx` -/
+theorem fillBuffer_tail (f : Bytes) (sched : Nat → Nat) (idx : Idx) (cap bi bl cur : Nat) (buf : Bytes)
+    (hlb : 0 < idx.lb) (hlB : idx.lb < idx.lB) (hs : ∀ k, 0 < sched k) (h64 : idx.lB < 2 ^ 64)
+    (fuel : Nat) (s : St) (lo line : Nat) (inv : Inv f idx s lo cur line) (hfuel : s.rest.length + 1 < fuel)
+    (btr : Nat) (hb1 : 0 < btr) (hb2 : btr ≤ bl)
+    (hfb : Gen.SrcIdxFa.fillBuffer (fillBufOp sched) consumeOp cap s (toRec idx) bl lo buf bi fuel =
+      (Gen.SrcIdxFa.fillBuffer_while1 (fillBufOp sched) consumeOp cap (toRec idx) bi btr fuel s bl lo [] >>= fun t3 =>
+        match t3 with
+        | .ret v => pure v
+        | .next (reader, bl', lo', buf') => pure (.ok (), reader, bl', lo', buf', 0))) :
+    FillPost f sched idx cap bi bl cur buf fuel s lo := by
+  obtain ⟨h1, h2⟩ := fill_while_spec f sched idx cap bi btr bl cur hlb hlB hs h64 hb1 hb2 fuel s lo line inv hfuel
+  refine ⟨fun h => ?_, fun h => ?_⟩
+  · obtain ⟨s', lo', n, line', a1, a2, a3, a4, a5, a6⟩ := h1 h
+    exact ⟨s', lo', n, line', a1, by omega, by rw [hfb, a3]; rfl, a4, a5, a6⟩
+  · obtain ⟨s', lo', buf', a1⟩ := h2 h
+    exact ⟨s', bl, lo', buf', bi, by rw [hfb, a1]; rfl⟩
+
 /-- **`fill_buffer`**: from a state with the loop invariant and `bases_left > 0`: the next chunk of bases (at least one,
 at most `bases_left`, ending at a line end or where the buffered bytes end) when the next base lies inside the file, the
-truncation error otherwise.  The chunk size asked for (`capacity` of the private buffer, a constant, …) only has to be positive. -/
+truncation error otherwise.  The chunk size asked for — `min(self.buf.capacity(), bases_left)` in the pinned text,
+`min(MAX_FASTA_BUFFER_SIZE, bases_left)` in seeded C12-H1 — only has to be positive and at most `bases_left`. -/
 theorem fillBuffer_spec (f : Bytes) (sched : Nat → Nat) (idx : Idx) (cap bi bl cur : Nat) (buf : Bytes)
     (hlb : 0 < idx.lb) (hlB : idx.lb < idx.lB) (hs : ∀ k, 0 < sched k) (h64 : idx.lB < 2 ^ 64)
     (hcap : 0 < cap) (hbl : 0 < bl) (fuel : Nat) (s : St) (lo line : Nat)
     (inv : Inv f idx s lo cur line) (hfuel : s.rest.length + 1 < fuel) :
-    (pos idx cur < f.length →
-      ∃ s' lo' n line', 0 < n ∧ n ≤ bl ∧
-        Gen.SrcIdxFa.fillBuffer (fillBufOp sched) consumeOp cap s (toRec idx) bl lo buf bi fuel =
-          Res.ok (.ok (), s', bl - n, lo', slice f idx cur (cur + n), 0) ∧
-        Inv f idx s' lo' (cur + n) line' ∧ s'.rest.length ≤ s.rest.length ∧
-        (∀ j, j < n → pos idx (cur + j) < f.length)) ∧
-    (f.length ≤ pos idx cur →
-      ∃ s' bl' lo' buf' bi', Gen.SrcIdxFa.fillBuffer (fillBufOp sched) consumeOp cap s (toRec idx) bl lo buf bi fuel =
-          Res.ok (.error eofErr, s', bl', lo', buf', bi')) := by
+    FillPost f sched idx cap bi bl cur buf fuel s lo := by
   have hass : Rs.assert (decide (bl > 0)) = Res.ok () := Rs.assert_ok (by simpa using hbl)
-  unfold Gen.SrcIdxFa.fillBuffer
-  simp only [hass, Res.ok_bind]
+  have hass' : Rs.assert (decide (0 < bl)) = Res.ok () := Rs.assert_ok (by simpa using hbl)
+  have hass'' : Rs.assert (bl != 0) = Res.ok () := Rs.assert_ok (by simp; omega)
   first
-    | generalize hbtr : min cap bl = btr
-    | generalize hbtr : min Gen.SrcIdxFa.MAX_FASTA_BUFFER_SIZE bl = btr
-  have hb : 0 < btr ∧ btr ≤ bl := by
-    subst hbtr
-    first
-      | omega
-      | (simp only [Gen.SrcIdxFa.MAX_FASTA_BUFFER_SIZE]; omega)
-  obtain ⟨h1, h2⟩ := fill_while_spec f sched idx cap bi btr bl cur hlb hlB hs h64 hb.1 hb.2 fuel s lo line inv hfuel
-  refine ⟨fun h => ?_, fun h => ?_⟩
-  · obtain ⟨s', lo', n, line', a1, a2, a3, a4, a5, a6⟩ := h1 h
-    exact ⟨s', lo', n, line', a1, by omega, by simp only [a3, Res.ok_bind, Res.pure_eq_ok], a4, a5, a6⟩
-  · obtain ⟨s', lo', buf', a1⟩ := h2 h
-    exact ⟨s', bl, lo', buf', bi, by simp only [a1, Res.ok_bind, Res.pure_eq_ok]⟩
-
+    | exact fillBuffer_tail f sched idx cap bi bl cur buf hlb hlB hs h64 fuel s lo line inv hfuel
+        (min cap bl) (by omega) (by omega)
+        (by unfold Gen.SrcIdxFa.fillBuffer; simp only [hass, hass', hass'', Res.ok_bind]
+            refine congrArg _ (funext fun t3 => ?_); cases t3 <;> rfl)
+    | exact fillBuffer_tail f sched idx cap bi bl cur buf hlb hlB hs h64 fuel s lo line inv hfuel
+        (min bl cap) (by omega) (by omega)
+        (by unfold Gen.SrcIdxFa.fillBuffer; simp only [hass, hass', hass'', Res.ok_bind]
+            refine congrArg _ (funext fun t3 => ?_); cases t3 <;> rfl)
+    | exact fillBuffer_tail f sched idx cap bi bl cur buf hlb hlB hs h64 fuel s lo line inv hfuel
+        (min Gen.SrcIdxFa.MAX_FASTA_BUFFER_SIZE bl) (by simp only [Gen.SrcIdxFa.MAX_FASTA_BUFFER_SIZE]; omega) (by omega)
+        (by unfold Gen.SrcIdxFa.fillBuffer; simp only [hass, hass', hass'', Res.ok_bind]
+            refine congrArg _ (funext fun t3 => ?_); cases t3 <;> rfl)
+    | exact fillBuffer_tail f sched idx cap bi bl cur buf hlb hlB hs h64 fuel s lo line inv hfuel
+        (min bl Gen.SrcIdxFa.MAX_FASTA_BUFFER_SIZE) (by simp only [Gen.SrcIdxFa.MAX_FASTA_BUFFER_SIZE]; omega) (by omega)
+        (by unfold Gen.SrcIdxFa.fillBuffer; simp only [hass, hass', hass'', Res.ok_bind]
+            refine congrArg _ (funext fun t3 => ?_); cases t3 <;> rfl)
 
 /-- the iterator state: reader, `bases_left`, `line_offset`, `buf`, `buf_idx` -/
 abbrev ItSt := St × Nat × Nat × List Nat × Nat
@@ -615,5 +643,57 @@ theorem iter_eq_model (file : Bytes) (sched : Nat → Nat) (idx : Idx) (cap star
     subst hmm
     rw [m5, n5]
     simp [itemsOf, toIo]
+
+
+/-! ## `idx_by_rid`, `fetch_by_rid`, `fetch_all_by_rid`, `read` -/
+
+/-- the `.fai` records as the Rust `Vec<IndexRecord>` (`Index::inner`, without the names) -/
+def toRecs (index : List (Bytes × Idx)) : List IndexRecord := index.map fun e => toRec e.2
+
+theorem idxByRid_eq_model (index : List (Bytes × Idx)) (rid : Nat) :
+    Gen.SrcIdxFa.idxByRid (toRecs index) rid =
+      Res.ok (match IdxFa.idxByRid index rid with
+        | .ok i => .ok (toRec i)
+        | .error e => .error (toIo e)) := by
+  unfold Gen.SrcIdxFa.idxByRid IdxFa.idxByRid toRecs
+  rw [List.getElem?_map]
+  cases h : index[rid]? <;> simp [toIo]
+
+/-- the fetch state of the Rust struct (`fetched_idx`, `start`, `stop`) for what the model's `fetch*` stored -/
+def fetchState (r : Fetched) : Option IndexRecord × Option Nat × Option Nat := (some (toRec r.idx), some r.start, some r.stop)
+
+/-- `fetch_by_rid`: translated code = mirror model — an unknown record number is the error and leaves the fetch state
+alone, a known one stores the entry and the interval -/
+theorem fetchByRid_eq_model (index : List (Bytes × Idx)) (fi : Option IndexRecord) (a b : Option Nat) (rid start stop : Nat) :
+    Gen.SrcIdxFa.fetchByRid (toRecs index) fi a b rid start stop =
+      Res.ok (match IdxFa.fetchByRid index rid start stop with
+        | .ok r => (.ok (), fetchState r)
+        | .error e => (.error (toIo e), fi, a, b)) := by
+  unfold Gen.SrcIdxFa.fetchByRid IdxFa.fetchByRid
+  rw [idxByRid_eq_model]
+  cases h : IdxFa.idxByRid index rid <;> simp [Except.map, fetchState]
+
+theorem fetchAllByRid_eq_model (index : List (Bytes × Idx)) (fi : Option IndexRecord) (a b : Option Nat) (rid : Nat) :
+    Gen.SrcIdxFa.fetchAllByRid (toRecs index) fi a b rid =
+      Res.ok (match IdxFa.fetchAllByRid index rid with
+        | .ok r => (.ok (), fetchState r)
+        | .error e => (.error (toIo e), fi, a, b)) := by
+  unfold Gen.SrcIdxFa.fetchAllByRid IdxFa.fetchAllByRid
+  rw [idxByRid_eq_model]
+  cases h : IdxFa.idxByRid index rid <;> simp [Except.map, fetchState]
+
+/-- `read` = `read_into_buffer` on what was fetched; an error before any fetch -/
+theorem read_eq {ρ : Type} (fb : ρ → Except IoErr (List Nat) × ρ) (co : ρ → Nat → ρ) (sk : ρ → Nat → Except IoErr Nat × ρ)
+    (s : ρ) (r : IndexRecord) (start stop : Nat) (seq : List Nat) (fuel : Nat) :
+    Gen.SrcIdxFa.read fb co sk s (some r) (some start) (some stop) seq fuel =
+      Gen.SrcIdxFa.readIntoBuffer fb co sk s r start stop seq fuel := by
+  unfold Gen.SrcIdxFa.read
+  simp only [Res.pure_eq_ok, bind_pure_comp]
+  cases Gen.SrcIdxFa.readIntoBuffer fb co sk s r start stop seq fuel <;> rfl
+
+theorem read_nofetch {ρ : Type} (fb : ρ → Except IoErr (List Nat) × ρ) (co : ρ → Nat → ρ)
+    (sk : ρ → Nat → Except IoErr Nat × ρ) (s : ρ) (seq : List Nat) (fuel : Nat) :
+    Gen.SrcIdxFa.read fb co sk s none none none seq fuel = Res.ok (.error (toIo .nofetch), s, seq) := by
+  simp [Gen.SrcIdxFa.read, toIo]
 
 end RbV.Thm.GenSrcIdxFa
